@@ -35,7 +35,19 @@ def run_check(prop, root, tier="quick"):
     try:
         mod.check(ctx, rep, tier)
     except core.AnalysisError as e:
-        # obligations decided before the analysis gave up are kept (a violation found is a violation)
+        # obligations decided before the analysis gave up are kept: a violation of a clause that
+        # reports a construct it found (IDIOM_GUARD_EXEMPT) stands; every other provisional
+        # verdict is withheld, because the guards below and later passes of the check did not run
+        try:
+            rep.engine_guard()
+            rep.idiom_guard()
+        except Exception:
+            rep.idiom_exempt = set()
+        for o in rep.obs:
+            if o.status == core.VIOLATED and o.rule not in rep.idiom_exempt:
+                o.status = core.UNDECIDED
+                o.detail = "verdict withheld, the analysis ended early; candidate: " + o.detail
+                o.witness = None
         e.partial = rep
         raise
     rep.engine_guard()
